@@ -2,17 +2,17 @@ SPECIFICATION Spec
 CONSTANTS
  Mode = "pfi"
  D = 2
- NInner = 1
- Kind = "welford"
+ NInner = 2
+ Kind = "es"
  Alpha <- A_1_2
- StoreKind = "batch"
+ StoreKind = "interval"
  Cap = 2
  Strategy = "joint"
- NOver = 0
+ NOver = 1
  ModelKind = "scalar"
  CommitEarly = FALSE
- MaxCalls = 4
- MaxFaults = 2
+ MaxCalls = 3
+ MaxFaults = 1
  AllowNoUpd = FALSE
 INVARIANT Efficiency
 INVARIANT FaultAtomic
